@@ -20,7 +20,10 @@ import time
 
 VERIF = os.path.dirname(os.path.dirname(os.path.abspath(__file__)))
 REPO = os.environ.get("VERIF_REPO", "/repo")
-BUILD = os.path.join(VERIF, "build")
+# runs against a scratch repository (seedsuite / harmlesssuite / VERIF_REPO=...) get their own build directory, so that they can run
+# side by side with each other and with checks of /repo itself without overwriting generated files
+BUILD = os.path.join(VERIF, "build") if REPO == "/repo" else os.path.join(VERIF, "build", "scratch_" + re.sub(r"[^A-Za-z0-9_]", "_", REPO.strip("/")))
+REPLAY = os.path.join(VERIF, "replay") if REPO == "/repo" else os.path.join(BUILD, "replay")
 GUARD = "IMATH_VERIF"
 JOBS = int(os.environ.get("VERIF_JOBS", "16"))
 
@@ -732,7 +735,7 @@ def finish(prop, tier, units, t0, extra_cov=None, assumptions=(), not_covered=()
     known = load_known()
     seed = int(os.environ.get("VERIF_SEED", "0") or 0)
     os.makedirs(os.path.join(VERIF, "evidence"), exist_ok=True)
-    os.makedirs(os.path.join(VERIF, "replay"), exist_ok=True)
+    os.makedirs(REPLAY, exist_ok=True)
     viol_lines, known_lines, undecided = [], [], []
     n_obl = n_dis = n_bounded = 0
     recs = []
@@ -745,7 +748,7 @@ def finish(prop, tier, units, t0, extra_cov=None, assumptions=(), not_covered=()
         # (a harmless a*b -> b*a edit); fail -> violation; no answer -> undecided (exit 2), never a violation.
         if u.status == "fail" and u.failed and u.mode == "ABS" and "CXX2C_ABS_ARITH" in u.defines and "CXX2C_ABS_COMM" not in u.defines:
             tag = "%s_%s" % (prop, re.sub(r"[^A-Za-z0-9_.]", "_", u.name))
-            rc, rout = native_replay(u, u.inputs, os.path.join(VERIF, "replay"), tag) if u.inputs or u.replay else (None, "verifier gave no input assignment")
+            rc, rout = native_replay(u, u.inputs, REPLAY, tag) if u.inputs or u.replay else (None, "verifier gave no input assignment")
             replayed[u.name] = (rc, rout)
             if not ((rc == 1) or (isinstance(rc, int) and rc < 0 and rc != -9)):
                 import copy
@@ -789,8 +792,8 @@ def finish(prop, tier, units, t0, extra_cov=None, assumptions=(), not_covered=()
             ob = u.failed[0]
             k = match_known(known, prop, u, ob)
             tag = "%s_%s" % (prop, re.sub(r"[^A-Za-z0-9_.]", "_", u.name))
-            rpath = os.path.join(VERIF, "replay", tag + ".json")
-            rc, rout = replayed[u.name] if u.name in replayed else (native_replay(u, u.inputs, os.path.join(VERIF, "replay"), tag) if u.inputs or u.replay else (None, "verifier gave no input assignment"))
+            rpath = os.path.join(REPLAY, tag + ".json")
+            rc, rout = replayed[u.name] if u.name in replayed else (native_replay(u, u.inputs, REPLAY, tag) if u.inputs or u.replay else (None, "verifier gave no input assignment"))
             # exit 1 = oracle violated on the real code; a negative exit is a trap (SIGFPE/SIGSEGV) of the
             # real code on an input that satisfies the harness assumptions - also a reproduction
             reproduced = (rc == 1) or (isinstance(rc, int) and rc < 0 and rc != -9)
